@@ -140,10 +140,23 @@ def run(ctx):
         ctx.case(('row', nrows), len(req) > 0 and len(names) > 1)
         try:
             WriteLAS.write_curve_and_array_section_to_las(fa, nfr, method, Slice.Slice(), set(req), width, fmt, out)
+            # the documented incremental use (curve section, heading, then the data): each call is given its own copy of the request,
+            # so none may depend on what an earlier call did to the set it was given; the text must be the same
+            out2 = io.StringIO()
+            WriteLAS.write_curve_section_to_las(fa, set(req), out2)
+            WriteLAS.write_array_section_header_to_las(fa, nfr, method, Slice.Slice(), set(req), width, out2)
+            WriteLAS.write_array_section_data_to_las(fa, method, set(req), width, fmt, out2)
         except Exception as e:
             ctx.fail('write_curve_and_array_section_to_las raised %s: %s for %s' % (type(e).__name__, e, json.dumps(case)), case, sig=dict(kind='exception'))
             continue
         text = out.getvalue()
+        if out2.getvalue() != text:
+            a_, b_ = text.splitlines(), out2.getvalue().splitlines()
+            k_ = next((i for i in range(min(len(a_), len(b_))) if a_[i] != b_[i]), min(len(a_), len(b_)))
+            ctx.fail('LAS write: the incremental calls (curve section, heading, data, each with its own copy of the request) write %r where the '
+                     'combined call writes %r (line %d); case %s' % (b_[k_] if k_ < len(b_) else None, a_[k_] if k_ < len(a_) else None, k_, json.dumps(case)[:500]),
+                     case, sig=dict(kind='incremental'))
+            continue
         case['text'] = text
         if nrows == 40:
             ctx.sample(case)
